@@ -434,6 +434,10 @@ func (repo *Repository) ProcessHeader(ctx context.Context, header *wire.BlockHea
 		repo.heights[*header.BlockHash()] = previousHeight + 1
 
 		longest := repo.branches.Longest()
+		if longest != repo.longest &&
+			longest.Last().AccumulatedWork.Cmp(repo.longest.Last().AccumulatedWork) <= 0 {
+			longest = repo.longest // equal work : the chain reported so far stays
+		}
 		if repo.longest != longest {
 			logger.InfoWithFields(ctx, []logger.Field{
 				logger.Stringer("previous_block_hash", header.PrevBlock),
@@ -461,6 +465,10 @@ func (repo *Repository) ProcessHeader(ctx context.Context, header *wire.BlockHea
 	headersSent := false
 	if previousBranch != repo.longest {
 		longest := repo.branches.Longest()
+		if longest != repo.longest &&
+			longest.Last().AccumulatedWork.Cmp(repo.longest.Last().AccumulatedWork) <= 0 {
+			longest = repo.longest // equal work : the chain reported so far stays
+		}
 		if repo.longest != longest {
 			logger.InfoWithFields(ctx, []logger.Field{
 				logger.Stringer("intersect_block_hash", repo.longest.IntersectHash(longest)),
